@@ -487,7 +487,10 @@ fn read_olde_ecl(
         )).ignore();
     }
     if matches!(format.timeline_array_kind(), TimelineArrayKind::Pcb { .. }) {
-        num_timelines -= 1;  // in these games, that last entry points to the end of the file
+        // in these games, that last entry points to the end of the file
+        num_timelines = num_timelines.checked_sub(1).ok_or_else(|| {
+            emitter.emit(error!("timeline table is empty (expected at least the end-of-file entry)"))
+        })?;
     }
 
     let subs = sub_offsets.into_iter().enumerate().map(|(index, sub_offset)| {
@@ -1104,7 +1107,7 @@ impl InstrFormat for OldeEclHooks {
     fn read_instr(&self, f: &mut BinReader, emitter: &dyn Emitter) -> ReadResult<ReadInstr> {
         let time = f.read_i32()?;
         let opcode = f.read_u16()?;
-        let size = f.read_i16()? as usize;
+        let size = f.read_u16()? as usize;  // (never negative; a "negative" size is just a huge one)
         let before_difficulty = f.read_u8()?;  // according to zero, not referenced in any game
         let difficulty = f.read_u8()?;
         let param_mask = f.read_u16()?;
@@ -1120,7 +1123,10 @@ impl InstrFormat for OldeEclHooks {
             )).ignore();
         }
 
-        let args_blob = f.read_byte_vec(size - self.instr_header_size())?;
+        let args_size = size.checked_sub(self.instr_header_size()).ok_or_else(|| {
+            emitter.as_sized().emit(error!("bad instruction size ({} < {})", size, self.instr_header_size()))
+        })?;
+        let args_blob = f.read_byte_vec(args_size)?;
 
         let instr = RawInstr {
             time, opcode, args_blob,
@@ -1190,7 +1196,7 @@ impl InstrFormat for TimelineFormat06 {
         }
 
         let opcode = f.read_u16()?;
-        let size = f.read_i16()? as usize;
+        let size = f.read_u16()? as usize;
 
         let args_size = size.checked_sub(self.instr_header_size()).ok_or_else(|| {
             emitter.as_sized().emit(error!("bad instruction size ({} < {})", size, self.instr_header_size()))
